@@ -18,6 +18,10 @@ import (
 // failing schedules judged against the specification (no model comparison).
 var YieldAfter bool
 
+// Observe32 (harness observation point, nil by default) sees every AddInt32 / CompareAndSwapInt32 at the moment of its
+// indivisible effect: kind "add" (old value, new value, true) or "cas" (expected value, new value, whether it succeeded).
+var Observe32 func(kind string, addr *int32, old, new int32, ok bool)
+
 func after(what string) {
 	if YieldAfter {
 		psync.Yield(what + "+")
@@ -54,6 +58,9 @@ func AddInt32(addr *int32, d int32) int32 {
 	psync.Yield("add")
 	*addr += d
 	r := *addr
+	if Observe32 != nil {
+		Observe32("add", addr, r-d, r, true)
+	}
 	after("add")
 	return r
 }
@@ -139,6 +146,9 @@ func CompareAndSwapUint32(addr *uint32, old, new uint32) bool {
 }
 func CompareAndSwapInt32(addr *int32, old, new int32) bool {
 	psync.Yield("cas")
+	if Observe32 != nil {
+		Observe32("cas", addr, old, new, *addr == old)
+	}
 	if *addr == old {
 		*addr = new
 		after("cas")
